@@ -261,7 +261,11 @@ def op_api_derive(st, hid_new, hid, seed):
         # object (no cached hash, no cached key digest): must be equal to
         # *new* in every respect
         rng.setstate(state)
-        twin = derive_any(pickle.loads(pickle.dumps(obj)), rng)
+        # (protocol 5: below that, numpy itself rewrites data of non-native
+        # byte order to native order while pickling, and the copy would not
+        # be a copy)
+        twin = derive_any(pickle.loads(pickle.dumps(
+            obj, protocol=pickle.HIGHEST_PROTOCOL)), rng)
     except Exception:  # noqa: BLE001
         new = None
     if new is None:
